@@ -387,3 +387,14 @@ pub fn big_graph_strategy(kinds: &'static [u8], lo: u16, hi: u16, wmodes: &'stat
         })
         .boxed()
 }
+
+/// For properties that enumerate *all* shortest paths: replaces the shapes whose number of
+/// shortest paths grows exponentially or quadratically with the size (layered, complete, joined
+/// cliques) by a cycle once the graph has more than `max_n` nodes. (The API returns every shortest
+/// path, so such inputs need memory exponential in n; that is not a defect.)
+pub fn tame_path_counts(mut g: GraphCase, max_n: u8) -> GraphCase {
+    if g.n > max_n && matches!(g.shape, 4 | 5 | 9) {
+        g.shape = 2;
+    }
+    g
+}
